@@ -73,7 +73,6 @@ void check_contender(H& c, bool enabled, const void* mtx, const Pair* obj, bool 
         }
     } else {
         cover(2);
-        if (timed && expect == 0) MC_CHECK(last_wait_timed_out(), "no-timeout", "timed form returned null without its time-out having fired");
     }
 }
 
